@@ -171,3 +171,74 @@ func init() {
 		}
 	}
 }
+
+// ---------------------------------------------------------------------------------------------
+// C11 - every PAIR of call sites, cold cache, fast mode: two goroutines make their first call from two
+// different statements at the same time (P <= 2, with post-publication points). Whatever the lookup
+// caches and however it finds a cached entry (a table indexed by a hash of the program counter, a
+// probe sequence), a record carries the location of ITS statement - also for the pairs whose entries
+// happen to collide. 64 sites = 2016 pairs (thorough: 192 sites = 18336 pairs); which pairs collide
+// depends on the implementation and the build, so this family covers "every pair of THESE sites" and
+// nothing more: a cache whose hash spreads regularly spaced program counters well (seeded change C11-12,
+// Fibonacci hashing into 4096 slots) has no colliding pair among them, and its defect is NOT found.
+// ---------------------------------------------------------------------------------------------
+
+func pairOf(k, n int) (int, int) {
+	for i := 0; i < n; i++ {
+		if k < n-1-i {
+			return i, i + 1 + k
+		}
+		k -= n - 1 - i
+	}
+	return 0, 1
+}
+
+func init() {
+	nSites := func(tier string) int {
+		if tier == "thorough" {
+			return len(pairSites)
+		}
+		return 64
+	}
+	registerFamily(Fam{Prop: "C11", Name: "c11/cold-pairs", Tiers: "qt",
+		Count: func(tier string) int { n := nSites(tier); return n * (n - 1) / 2 },
+		Make: func(tier string, k int) *zzvrt.Scenario {
+			i, j := pairOf(k, nSites(tier))
+			b := zzvrt.Bounds{Preempt: 2, Horizon: 5000}
+			var want []string
+			var rerr error
+			return &zzvrt.Scenario{
+				Desc:   fmt.Sprintf("sites %d and %d", i, j),
+				Before: func() { resetAll(); lrecStore = nil; want = nil; rerr = nil },
+				Opts:   zzvrt.RunOpts{Bounds: b},
+				Body: func() {
+					zzvrt.Atomic(func() {
+						rerr = log.Refresh(map[string]string{"appender.l.type": "LRec", "logger.root.type": "Logger", "logger.root.appenderRef.ref": "l",
+							"enableCaller": "true", "fastCaller": "true"})
+					})
+					if rerr != nil {
+						return
+					}
+					done := 0
+					zzvrt.GoNamed("site-i", func() { want = append(want, pairSites[i](1)); done++ })
+					zzvrt.GoNamed("site-j", func() { want = append(want, pairSites[j](2)); done++ })
+					zzvrt.WaitUntil(func() bool { return done == 2 })
+					zzvrt.Atomic(log.Destroy)
+				},
+				Check: func(x *zzvrt.Exec) (string, []zzvrt.Violation) {
+					key := fmt.Sprintf("sites %d and %d", i, j)
+					if x.Outcome != "" {
+						return x.Outcome, []zzvrt.Violation{{Clause: "no-" + strings.SplitN(x.Outcome, ":", 2)[0], Key: key, Detail: x.Outcome}}
+					}
+					if rerr != nil {
+						return "err", []zzvrt.Violation{{Clause: "setup", Key: key, Detail: rerr.Error()}}
+					}
+					got, exp := sortedCopy(lrecStore), sortedCopy(want)
+					if strings.Join(got, "\n") != strings.Join(exp, "\n") {
+						return "wrong", []zzvrt.Violation{{Clause: "wrong-location-under-concurrency", Key: key, Detail: fmt.Sprintf("records %v, the calling statements are %v", got, exp)}}
+					}
+					return "ok", nil
+				},
+			}
+		}})
+}
